@@ -21,7 +21,7 @@ func init() {
 	register(&Property{
 		ID: "C08",
 		Meta: core.Meta{
-			Level: "other",
+			Level:       "other",
 			Explanation: "Decided statically: (R08.1) every constant the converter substitutes denotes the ECMA-262 set it stands for — the set each constant denotes is computed with regexp/syntax (constants are data, not ogen code): '.' → complement of {LF, CR, U+2028, U+2029}; \\s → WhiteSpace ∪ LineTerminator (25 code points), \\S → its complement; [] → ∅; [^] → every code point U+0000–U+10FFFF; (R08.2) wiring that makes 'never approximated' and 'reports its original source' hold: Convert returns ok=true only under parse()==nil, parse returns the parser's error field, every non-fatal construct (look-ahead, look-behind, back-references, \\S in a class) records an error, Compile passes the ORIGINAL pattern and ECMAScript|Unicode to regexp2 on every path that does not return a goRegexp built under both success edges, goRegexp.orig is the original pattern and both String() methods return the original; (R08.3) every compiler-unproven bounds check of the package is discharged. Language equality between a pattern and its rewriting for arbitrary patterns (the token-level rewriting of escapes, classes, quantifiers) is a semantic property of the rewriting loop and is NOT decided.",
 			Assumptions: []string{"reference sets frozen from ECMA-262 §12.2 WhiteSpace (incl. Unicode Zs) and §12.3 LineTerminator", "regexp2.Regexp.String returns the pattern it was compiled from"},
 			TrustedBase: []string{"regexp/syntax as the evaluator of what a constant character class denotes", "tables/panic_justified.json"},
@@ -143,9 +143,9 @@ func runC08(c *core.Ctx) error {
 
 	// ---- R08.1: every constant string written by writeString
 	type site struct {
-		fn, ctx string
-		val     string
-		pos     token.Pos
+		fn, ctx     string
+		val         string
+		pos         token.Pos
 		inClassThen *bool
 	}
 	var sites []site
@@ -552,9 +552,9 @@ func checkConvertWiring(c *core.Ctx, prog *core.Prog, r *core.Rule, convert *ssa
 func checkNonFatal(c *core.Ctx, pkg *packages.Package, r *core.Rule) {
 	// collect p.error(false, "...") message constants per function
 	type ec struct {
-		fn, msg string
-		fatal   bool
-		pos     token.Pos
+		fn, msg          string
+		fatal            bool
+		pos              token.Pos
 		followedByReturn bool
 	}
 	var calls []ec
@@ -739,7 +739,6 @@ func checkHexPadding(c *core.Ctx, prog *core.Prog, r *core.Rule) {
 	}
 }
 
-
 // checkSingleDigitEscape: ECMA-262 reads \N (one decimal digit, N ≥ 1) as a
 // back-reference whenever the pattern has at least N groups anywhere, also
 // after the reference; a single left-to-right pass cannot know that number, so
@@ -825,7 +824,6 @@ func checkSingleDigitEscape(c *core.Ctx, prog *core.Prog, r *core.Rule) {
 		r.Pass("scanEscape: a single digit escape \\N is passed through for N = 0 and falls back to the backtracking engine for every N ≥ 1, unconditionally")
 	}
 }
-
 
 // checkSpecialClassesFirst: `[]` (matches nothing) and `[^]` (matches any
 // character) are ECMA-262 spellings RE2 reads differently (`[^]…]` is a negated
